@@ -110,3 +110,15 @@ Definition read_stream (img : image) (t : list Z) (fuel : nat) (start : Z) (size
   | Some secs => Some (firstn size (concat (map img secs)))
   | None => None
   end.
+
+(* ---------- mini streams: two levels ---------- *)
+(* the mini stream container as bytes: mini sectors 0 .. n-1 one after the other (64 bytes each) *)
+Definition container_bytes (mimg : image) (n : nat) : bytes := concat (map mimg (seqZ 0 n)).
+
+(* a reader of a stream below 4096 bytes: follow the mini FAT from the start in the directory entry, take mini
+   sector m as bytes [64 m, 64 m + 64) of the container, cut to the stream size *)
+Definition read_mini (cont : bytes) (mt : list Z) (fuel : nat) (start : Z) (size : nat) : option bytes :=
+  match walk mt fuel start with
+  | Some secs => Some (firstn size (concat (map (fun m => firstn 64 (skipn (Z.to_nat (64 * m)) cont)) secs)))
+  | None => None
+  end.
